@@ -36,6 +36,7 @@ Fixpoint ecoms (es : list celem) (lc : nat) : list ritem :=
 
 Inductive lay :=
 | LOne (line : text) (lab : option N) (nm : option text) (p : text)
+| LOneC (line : text) (lab : option N) (nm : option text) (p c : text)      (* ... with a trailing comment *)
 | LCont (line : text) (lab : option N) (nm : option text) (p1 : text) (ms : list (text * text)) (bn pn : text)
 | LContC (line : text) (lab : option N) (nm : option text) (p1 : text) (es : list celem) (bn pn : text)
 | LSemi (line : text) (lab : option N) (nm : option text) (p1 : text) (rest : list text)
@@ -50,6 +51,7 @@ Definition mk_other (a b : nat) (o : text * option N * option text) : ritem :=
 Definition phys (l : lay) : list text :=
   match l with
   | LOne line _ _ _ => [line]
+  | LOneC line _ _ _ _ => [line]
   | LCont line _ _ _ ms bn pn => line :: mids ms ++ [last_line bn pn]
   | LContC line _ _ _ es bn pn => line :: map phys_e es ++ [last_line bn pn]
   | LSemi line _ _ _ _ _ => [line]
@@ -63,6 +65,10 @@ Definition good (l : lay) : Prop :=
       stripped line /\ line <> [] /\ starts_with ["#"%char] (lstrip line) = false /\
       (exists l1, extract_label line = (lab, l1) /\ extract_construct_name l1 = (nm, p)) /\
       plain p /\ strip p <> [] /\ mem_char ";"%char (strip p) = false
+  | LOneC line lab nm p c =>
+      stripped line /\ line <> [] /\ starts_with ["#"%char] (lstrip line) = false /\
+      (exists l1, extract_label line = (lab, l1) /\ extract_construct_name l1 = (nm, p ++ bang :: c)) /\
+      plain p /\ strip p <> [] /\ is_blank p = false /\ mem_char ";"%char (strip p) = false
   | LCont line lab nm p1 ms bn pn =>
       stripped line /\ line <> [] /\ starts_with ["#"%char] (lstrip line) = false /\
       (exists l1, extract_label line = (lab, l1) /\ extract_construct_name l1 = (nm, p1 ++ [amp])) /\
@@ -99,6 +105,7 @@ Variable ign : bool.
 Definition rawp (l : lay) (lc : nat) : ritem * list ritem :=
   match l with
   | LOne _ lab nm p => (RLine (strip p) lab nm (S lc) (S lc), [])
+  | LOneC _ lab nm p c => (RLine (strip p) lab nm (S lc) (S lc), [RComment (bang :: c) (S lc) (S lc) true])
   | LCont _ lab nm p1 ms _ pn =>
       (RLine (strip (p1 ++ List.concat (map snd ms) ++ pn)) lab nm (S lc) (S (S lc) + List.length ms), [])
   | LContC _ lab nm p1 es _ pn =>
@@ -150,6 +157,37 @@ Proof.
   rewrite X. cbn [r_free st r_omp r_linecount]. unfold free_item. rewrite EL, EN. cbn [r_linecount st].
   cbn [r_src r_filo st List.length]. rewrite free_loop_one by exact P.
   destruct (strip p) as [|c t] eqn:ST; [contradiction|]. reflexivity.
+Qed.
+
+(* ---- the one-line statement with a trailing comment *)
+Lemma hic_trailing p c n : plain p -> is_blank p = false ->
+  handle_inline_comment (p ++ bang :: c) n None = (p, None, Some (RComment (bang :: c) n n true)).
+Proof.
+  intros P NB. unfold handle_inline_comment.
+  assert (M : mem_char bang (p ++ bang :: c) = true).
+  { rewrite mem_char_app. unfold mem_char at 2. cbn [existsb]. rewrite aeqb_refl. cbn. apply orb_true_r. }
+  rewrite M. cbn [negb andb].
+  destruct (plain_quiet p P) as [[Q1 [Q2 Q3]] _].
+  rewrite (find_char_app_not bang p (bang :: c) Q1), find_char_head. cbn [option_map]. rewrite Nat.add_0_r.
+  rewrite firstn_app_exact, skipn_app_exact. rewrite Q2, Q3. cbn [negb andb]. rewrite NB. reflexivity.
+Qed.
+
+Lemma gsi_onec line lab nm p c l1 src lc :
+  stripped line -> line <> [] -> starts_with ["#"%char] (lstrip line) = false ->
+  extract_label line = (lab, l1) -> extract_construct_name l1 = (nm, p ++ bang :: c) -> plain p -> strip p <> [] ->
+  is_blank p = false ->
+  get_source_item (stt (line :: src) lc [])
+  = (Some (RLine (strip p) lab nm (S lc) (S lc)), stt src (S lc) [RComment (bang :: c) (S lc) (S lc) true]).
+Proof.
+  intros SL NE NH EL EN P NS NB. unfold get_source_item. rewrite (gsl ign _ line lc [] SL).
+  assert (X : (match line with [] => false | _ => true end) && starts_with ["#"%char] (lstrip line) = false)
+    by (rewrite NH; apply andb_false_r).
+  rewrite X. cbn [r_free st r_omp r_linecount]. unfold free_item. rewrite EL, EN. cbn [r_linecount st].
+  cbn [r_src r_filo st List.length].
+  match goal with |- context [free_loop (S ?f) false true] => generalize f; intros fuel end.
+  cbn [free_loop]. cbn [negb andb r_linecount st]. rewrite (hic_trailing p c (S lc) P NB). cbn [push_opt r_fifo st app].
+  destruct (plain_quiet p P) as [_ Ap]. rewrite (rfind_none p Ap).
+  destruct (strip p) as [|c0 t] eqn:ST; [contradiction|]. reflexivity.
 Qed.
 
 (* ---- a full-line comment *)
@@ -306,10 +344,12 @@ Lemma gsi_lay l rest lc : good l ->
   get_source_item (stt (phys l ++ rest) lc [])
   = (Some (fst (rawp l lc)), stt rest (lc + List.length (phys l)) (snd (rawp l lc))).
 Proof.
-  destruct l as [line lab nm p|line lab nm p1 ms bn pn|line lab nm p1 es bn pn|line lab nm p1 rs os|b c|];
+  destruct l as [line lab nm p|line lab nm p cm|line lab nm p1 ms bn pn|line lab nm p1 es bn pn|line lab nm p1 rs os|b c|];
     cbn [good phys rawp fst snd].
   - intros [SL [NE [NH [[l1 [EL EN]] [P [NS SEMI]]]]]]. cbn [app List.length]. rewrite Nat.add_1_r.
     apply (gsi_one line lab nm p l1 rest lc SL NE NH EL EN P NS).
+  - intros [SL [NE [NH [[l1 [EL EN]] [P [NS [NB SEMI]]]]]]]. cbn [app List.length]. rewrite Nat.add_1_r.
+    apply (gsi_onec line lab nm p cm l1 rest lc SL NE NH EL EN P NS NB).
   - intros [SL [NE [NH [[l1 [EL EN]] [P1 [OK [Bn [Pn [PNE [NB [SLL [NS SEMI]]]]]]]]]]]].
     cbn [app List.length]. rewrite <- app_assoc. cbn [app].
     rewrite (item_of_continued_statement ign line lab l1 nm p1 ms bn pn rest lc [] SL NE NH EL EN P1 OK Bn Pn PNE NB SLL NS).
@@ -323,6 +363,8 @@ Proof.
   - intros [B SL]. cbn [app List.length]. rewrite Nat.add_1_r. apply (gsi_comment b c rest lc B SL).
   - intros _. cbn [app List.length]. rewrite Nat.add_1_r. apply gsi_blank.
 Qed.
+
+Definition is_comment_item (it : ritem) : bool := match it with RComment _ _ _ _ => true | _ => false end.
 
 (* items waiting in the queue: comments, and statement items without ';' *)
 Definition pend_ok (it : ritem) : Prop :=
@@ -354,9 +396,11 @@ Lemma split_lay l lc : good l ->
   /\ pend_ok (fst (produced l lc)) /\ Forall pend_ok (snd (produced l lc))
   /\ kept (fst (produced l lc)) = kept (fst (rawp l lc)).
 Proof.
-  destruct l as [line lab nm p|line lab nm p1 ms bn pn|line lab nm p1 es bn pn|line lab nm p1 rs os|b c|];
+  destruct l as [line lab nm p|line lab nm p cm|line lab nm p1 ms bn pn|line lab nm p1 es bn pn|line lab nm p1 rs os|b c|];
     cbn [good rawp produced fst snd].
   - intros [_ [_ [_ [_ [_ [_ SEMI]]]]]]. repeat split; [apply split_ok_plain; exact SEMI|exact SEMI|constructor].
+  - intros [_ [_ [_ [_ [_ [_ [_ SEMI]]]]]]]. repeat split; [apply split_ok_plain; exact SEMI|exact SEMI|].
+    constructor; [exact I|constructor].
   - intros [_ [_ [_ [_ [_ [_ [_ [_ [_ [_ [_ [_ SEMI]]]]]]]]]]]].
     repeat split; [apply split_ok_plain; exact SEMI|exact SEMI|constructor].
   - intros [_ [_ [_ [_ [_ [_ [_ [_ [_ [_ [_ [_ SEMI]]]]]]]]]]]].
@@ -377,11 +421,8 @@ Proof.
   induction es as [|e r IH]; intros k; [cbn; lia|].
   destruct e; cbn [ecoms List.length]; specialize (IH (S k)); lia.
 Qed.
-Lemma raw_queue_short l lc : List.length (snd (rawp l lc)) < List.length (phys l).
-Proof.
-  destruct l; cbn [rawp snd List.length phys]; try lia.
-  rewrite app_length, map_length. cbn [List.length]. pose proof (ecoms_length es (S (S lc))). lia.
-Qed.
+Lemma raw_queue_of_comment l lc : is_comment_item (fst (rawp l lc)) = true -> snd (rawp l lc) = [].
+Proof. destruct l; cbn [rawp fst snd is_comment_item]; intros H; try discriminate; reflexivity. Qed.
 
 (* ---- the next delivered item, from a queue of pending items and a list of layout elements:
         (what get_source_item / the queue hands to next(), what next() hands out, the rest) *)
@@ -435,7 +476,7 @@ Proof.
 Qed.
 
 Lemma next_raw_gen : forall ls pend lc fuel, Forall good ls ->
-  List.length pend + List.length (flat_map phys ls) < fuel ->
+  List.length pend + List.length ls < fuel ->
   next_raw fuel (stt (flat_map phys ls) lc pend) =
   match first_gen pend ls lc with
   | Some (ri, rq, _, _, r, lc') => (Some ri, stt (flat_map phys r) lc' rq)
@@ -458,8 +499,8 @@ Proof.
     + cbn [r_ign st]. destruct ign; cbn [negb]; [|reflexivity].
       rewrite IH.
       * unfold first_gen. destruct (first_pend q0) as [[it' q']|]; reflexivity.
-      * assert (LQ : List.length q0 < List.length (phys l)) by (apply raw_queue_short).
-        cbn [flat_map] in LT. rewrite app_length in LT. lia.
+      * assert (LQ : q0 = []) by (unfold q0; apply raw_queue_of_comment; fold main; rewrite EM; reflexivity).
+        rewrite LQ. cbn [List.length] in *. lia.
     + reflexivity.
 Qed.
 
@@ -526,7 +567,7 @@ Lemma next_item_gen ls pend lc : Forall pend_ok pend -> Forall good ls ->
   end.
 Proof.
   intros FP G. unfold next_item. cbn [r_src r_filo r_fifo st List.length].
-  rewrite (next_raw_gen ls pend lc _ G) by lia.
+  rewrite (next_raw_gen ls pend lc _ G) by (pose proof (flat_map_phys_length ls); lia).
   pose proof (first_gen_spec pend ls lc FP G) as SP.
   destruct (first_gen pend ls lc) as [[[[[[ri rq] pi] pq] r] lc']|]; [|reflexivity].
   destruct SP as [SO _]. destruct ri as [t lab nm a b|t a b il|t a b]; cbn [split_ok] in SO.
@@ -555,8 +596,9 @@ Proof. induction l as [|x r IH]; [reflexivity|]. cbn [keep filter]. fold (keep r
 Lemma item_length l lc : good l -> List.length (item l lc) <= List.length (List.concat (phys l)) + List.length (phys l).
 Proof.
   intros G. unfold item. pose proof (keep_length (fst (produced l lc) :: snd (produced l lc))) as K. cbn [List.length] in K.
-  destruct l as [line lab nm p|line lab nm p1 ms bn pn|line lab nm p1 es bn pn|line lab nm p1 rs os|b c|];
+  destruct l as [line lab nm p|line lab nm p cm|line lab nm p1 ms bn pn|line lab nm p1 es bn pn|line lab nm p1 rs os|b c|];
     cbn [produced rawp snd phys List.length] in *; try lia.
+  - destruct G as [_ [NE _]]. cbn [List.concat]. rewrite app_nil_r. destruct line; [contradiction|cbn [List.length] in *; lia].
   - rewrite app_length, map_length in *. cbn [List.length] in *. pose proof (ecoms_length es (S (S lc))). lia.
   - cbv zeta in G. destruct G as [_ [_ [_ [_ [_ [_ [_ [_ [_ [_ [_ [_ [_ [_ LO]]]]]]]]]]]]]].
     rewrite map_length in K. cbn [List.concat]. rewrite app_nil_r. lia.
@@ -644,6 +686,7 @@ Qed.
 Definition strip_comments (l : lay) : lay :=
   match l with
   | LContC line lab nm p1 es bn pn => LContC line lab nm p1 (filter (fun e => match e with CMid _ _ => true | _ => false end) es) bn pn
+  | LOneC line lab nm p c => LOne (rstrip (firstn (List.length line - S (List.length c)) line)) lab nm p
   | x => x
   end.
 Lemma etext_filter es : etext (filter (fun e => match e with CMid _ _ => true | _ => false end) es) = etext es.
@@ -657,7 +700,9 @@ Lemma stmt_texts_items ign1 ign2 : forall ls lc lc',
 Proof.
   induction ls as [|l r IH]; intros lc lc'; [reflexivity|].
   cbn [items filter]. rewrite stmt_texts_app. unfold item. rewrite stmt_texts_keep.
-  destruct l as [line lab nm p|line lab nm p1 ms bn pn|line lab nm p1 es bn pn|line lab nm p1 rs os|b c|]; cbn [is_stmt map].
+  destruct l as [line lab nm p|line lab nm p cm|line lab nm p1 ms bn pn|line lab nm p1 es bn pn|line lab nm p1 rs os|b c|]; cbn [is_stmt map].
+  - cbn [items]. rewrite stmt_texts_app. unfold item. rewrite stmt_texts_keep. cbn [produced rawp fst snd strip_comments].
+    cbn [stmt_texts flat_map app]. f_equal. apply IH.
   - cbn [items]. rewrite stmt_texts_app. unfold item. rewrite stmt_texts_keep. cbn [produced rawp fst snd strip_comments].
     cbn [stmt_texts flat_map app]. f_equal. apply IH.
   - cbn [items]. rewrite stmt_texts_app. unfold item. rewrite stmt_texts_keep. cbn [produced rawp fst snd strip_comments].
